@@ -176,12 +176,16 @@ func (r *Runner) proj() M {
 // Write batches
 
 type GenPoint struct {
-	ID   int
-	Doc  GenDoc
-	Vals map[string]any // real values of the indexed properties in Doc
+	ID     int
+	Doc    GenDoc
+	Vals   map[string]any // real values of the indexed properties in Doc
+	NoData bool           // the point is sent without any data bytes (an id only)
 }
 
 func (r *Runner) gen(id int, forUpdate bool, pInc float64) GenPoint {
+	if !forUpdate && r.Cfg.PNoData > 0 && r.R.Float64() < r.Cfg.PNoData {
+		return GenPoint{ID: id, Doc: GenDoc{Real: models.PointAsMap{}, Abs: map[string]any{}}, Vals: map[string]any{}, NoData: true}
+	}
 	d := r.G.DocFrom(forUpdate, pInc, r.believedVals[id])
 	return GenPoint{ID: id, Doc: d, Vals: r.G.Last}
 }
@@ -212,6 +216,9 @@ func realBatch(b []GenPoint) []models.Point {
 		data, err := msgpack.Marshal(p.Doc.Real)
 		if err != nil {
 			panic(err)
+		}
+		if p.NoData {
+			data = nil
 		}
 		out[i] = models.Point{Id: UUIDOf(p.ID), Data: data}
 	}
@@ -448,7 +455,7 @@ func (r *Runner) GenBatch() Batch {
 			b = append(b, r.gen(b[0].ID, false, 0.8))
 		}
 		return Batch{Kind: "insert", Pts: b}
-	case x < 0.75:
+	case x < 0.75 && !r.Cfg.NoUpdates:
 		var b []GenPoint
 		for _, id := range r.pickIDs(n, 0.8) {
 			b = append(b, r.gen(id, true, 0.5))
